@@ -36,7 +36,7 @@ Ltac gored :=
   cbn [Nat.add i_eval i_assign i_exec i_loop i_call eval_step assign_step exec_step call_step
        loop_step evals fields execs assigns select matches range type_of find_fn Pos.eqb andb orb negb
        bind_all set lookup rbind at_state zero_of arith spread length Nat.eqb ret_val as_slice re_slice fold_left
-       is_place is_lplace fst snd app Bool.eqb fn_recv fn_params fn_wb fn_body tag_args find_tag collect_wb with_wb un_wb store_wbs existsb nth_error Nat.pred it_val it_rep arr_val lst_val lcls_val stk_val set_val col_val rank_ext cmp_ext].
+       is_place is_lplace fst snd app Bool.eqb fn_recv fn_params fn_wb fn_body tag_args untag bare find_tag collect_wb with_wb un_wb store_wbs existsb nth_error Nat.pred it_val it_rep arr_val lst_val lcls_val stk_val set_val col_val rank_ext cmp_ext].
 
 (* look a method (or a struct declaration) up in the generated program, by computation *)
 Ltac gofind :=
